@@ -98,7 +98,7 @@ void harness (void)
 	 * strictly inside it */
 	int64_t L = w.left_x, R = w.right_x, P = REPEAT == PIXMAN_REPEAT_NORMAL ? 65536 : 131072;
 	int lok = 0, rok = 0, inside = 0;
-	VP_ASSERT (L <= pos && (pos < R || (L == R && pos == R)), "selected segment contains the position (it may be empty only when the neighbouring stops coincide there)");
+	VP_ASSERT (L <= pos && pos <= R, "selected segment contains the position (closed interval: at a stop shared by two segments either neighbour is admissible, mirrored halves flip the half-open convention)");
 	for (i = 1; i <= NS; i++)
 	{
 	    int64_t sx = store[i].x;
